@@ -24,9 +24,13 @@ package c20
 //	unaffected-address-refused/{private,other-kind}   (1) such an address is reported as black-holed, or silently missing
 //	                                                  from a failed DialPeer's report without having been dialled
 //	refused-without-full-bad-window/<kinds>           (2) refusal although no possible reference window is full and bad
-//	no-probe-within-window/<kind>                     (3) N consecutive requests with public addresses of the kind all refused
+//	no-probe-within-window/<kind>                     (3) N consecutive requests with public addresses of the kind, made while
+//	                                                  the detector's State() is Blocked, all refused
 //	liveness/no-success-after-heal/<kind>             (4) none of the first N+1 single-address dials after the heal connects
-//	liveness/refused-after-recovery/<kind>            (4) a refusal after the first success of the tail, all dials succeeding
+//	liveness/refused-after-recovery/<kind>            (4) a refusal after a tail dial connected while the detector was refusing
+//	                                                  (that success clears it), every dial since having connected. A first
+//	                                                  success in Probing state does not clear: the window may then fill up
+//	                                                  bad and block once more, which the statement allows
 //	state-mismatch/<kind>/got-X                       State() of D's counter is not the state of any possible window
 //	read-only/passed-without-known-good/<kind>        (5) R dialled / CanDial'ed an address while the detector cannot be Allowed
 //	read-only/refused-although-known-good/<kind>      R refused while every applicable detector must be Allowed
@@ -38,7 +42,6 @@ import (
 	"errors"
 	"fmt"
 	"net"
-	"os"
 	"sort"
 	"strings"
 	"sync"
@@ -299,7 +302,6 @@ func runSystem(t *testing.T, tape *simrt.Tape, g simrt.Gen, o *common.Outcome) {
 			ctr[k] = &swarm.BlackHoleSuccessCounter{N: cfgN[k], MinSuccesses: cfgM[k], Name: kindName[k]}
 		}
 		shared := []swarm.Option{swarm.WithUDPBlackHoleSuccessCounter(ctr[0]), swarm.WithIPv6BlackHoleSuccessCounter(ctr[1])}
-		shared = append(shared, dbgOpts()...)
 		D, err := simhost.New(n, simhost.Opts{Key: simhost.DetKey(1), IP: sysDIP, Port: 4001, QUIC: true, SwarmOpts: shared})
 		if err != nil {
 			trouble = "node D: " + err.Error()
@@ -479,12 +481,6 @@ func runSystem(t *testing.T, tape *simrt.Tape, g simrt.Gen, o *common.Outcome) {
 				ops = append(ops, op)
 			}
 		}
-		if os.Getenv("C20_DEBUG") != "" {
-			for i := 0; i < 8; i++ {
-				simrt.TimeSleep(5 * time.Second)
-				fmt.Println("DEBUG", simrt.Now(), states())
-			}
-		}
 		finished = true
 	})
 	o.Sched, o.Virtual = res, res.Virtual
@@ -644,7 +640,7 @@ func checkSystem(o *common.Outcome, ops []*sOp, cfgN, cfgM [2]int) {
 				}
 			}
 			if len(keep) == 0 {
-				viol("C20/system/state-mismatch/"+kindName[k]+"/got-"+got[k], "%s the operation at %v: D's %s counter State() = %s; the dial outcomes observed on the wire allow only the windows %s (N=%d MinSuccesses=%d)",
+				viol("C20/system/state-mismatch/"+kindName[k]+"/got-"+got[k], "%s operation at %v: D's %s counter State() = %s; the dial outcomes observed on the wire allow only the windows %s (N=%d MinSuccesses=%d)",
 					when, op.t0, kindName[k], got[k], poss[k], n, m)
 				return false
 			}
@@ -662,7 +658,7 @@ func checkSystem(o *common.Outcome, ops []*sOp, cfgN, cfgM [2]int) {
 			continue
 		}
 		ro := op.kind == sRODial || op.kind == sROCanDial
-		if !sample("before", op, op.pre) {
+		if !sample("before the", op, op.pre) {
 			return
 		}
 		// what was observed per address: 1 on the wire / let through, 2 refused as black-holed, 0 nothing known
@@ -762,7 +758,7 @@ func checkSystem(o *common.Outcome, ops []*sOp, cfgN, cfgM [2]int) {
 		}
 		if ro {
 			// the read-only swarm's requests and dials are not part of the reference: D's counters must not move
-			if !sample("after the read-only swarm's", op, op.post) {
+			if !sample("after the read-only swarm's turn, ", op, op.post) {
 				return
 			}
 			continue
@@ -787,7 +783,10 @@ func checkSystem(o *common.Outcome, ops []*sOp, cfgN, cfgM [2]int) {
 				continue
 			}
 			requests++
-			if nRef == nK {
+			// a refusal counts for this detector only if its own State() was Blocked when the request came: an address
+			// that is both UDP and IPv6 may have been refused by the other detector (a detector that answers
+			// "probe" lets all addresses of its kind through, so a refused one was not probed by either)
+			if nRef == nK && op.pre[k] == stB {
 				refusedRun[k]++
 				o.Probe("system-request-refused")
 				if refusedRun[k] >= cfgN[k] {
@@ -900,7 +899,7 @@ func checkSystem(o *common.Outcome, ops []*sOp, cfgN, cfgM [2]int) {
 				o.Probe("system-cleared-by-success")
 			}
 		}
-		if !sample("after", op, op.post) {
+		if !sample("after the", op, op.post) {
 			return
 		}
 	}
